@@ -1,3 +1,492 @@
-/* placeholder, replaced when the mode is implemented */
+/*
+ * m_mempool.c - C20: allocation/free histories on cmi_mempool against an
+ * in-executor oracle.
+ *
+ * Pools are obtained the way the library obtains them: dynamically
+ * (cmi_mempool_create + cmi_mempool_initialize) or as statically initialised
+ * thread-local pools (CMI_MEMPOOL_STATIC_INIT; the harness declares a table of
+ * its own geometries and also uses the three tag pools of cmb_process.c),
+ * in the main thread or in a fresh pthread that ends with cmi_mempool_cleanup
+ * the way the experiment workers do.
+ *
+ * Oracle (per pool): every returned pointer is non-NULL and 8-byte aligned;
+ * [p, p + obj_sz) is disjoint from every object currently allocated from that
+ * pool (hash of live objects keyed by address / obj_sz); a pointer is never
+ * handed out while still allocated; each object is filled over its full obj_sz
+ * bytes with a pattern derived from its id when it is obtained and the pattern
+ * is verified when it is returned, at "check" ops and at the end. ASan watches
+ * the pool's own bookkeeping and the bounds of the chunks.
+ *
+ * Only cmi_mempool_* calls and their results are judged. The struct members
+ * chunk_list_cnt / incr_num are read for CLASSIFICATION only (how many chunk
+ * boundaries the population crossed).
+ *
+ * The same mp_run() serves the Hypothesis path (text case) and the libFuzzer
+ * front end (fuzz_mempool.c: bytes decoded into the same structs).
+ */
+#include <inttypes.h>
+#include <pthread.h>
+#include <stdlib.h>
+#include <string.h>
+
+#include "cmb_process.h"
+#include "cmi_config.h"
+#include "cmi_mempool.h"
+#include "cmi_process.h"
+
 #include "cimx.h"
-int mode_mempool(char *text, FILE *trace) { (void)text; fprintf(trace, "F mode mempool not implemented\n"); return CIMX_PARSE_ERROR; }
+#include "m_mempool.h"
+
+/* ------------------------------------------------- static thread-local pools -- */
+
+#define SP(name, sz, num) \
+    static CMB_THREAD_LOCAL struct cmi_mempool name = CMI_MEMPOOL_STATIC_INIT(sz, num)
+
+SP(sp_8_1, 8u, 1u);
+SP(sp_8_600, 8u, 600u);
+SP(sp_16_256, 16u, 256u);
+SP(sp_24_100, 24u, 100u);
+SP(sp_32_128, 32u, 128u);
+SP(sp_72_57, 72u, 57u);
+SP(sp_1368_3, 1368u, 3u);
+SP(sp_2048_1, 2048u, 1u);
+SP(sp_2056_1, 2056u, 1u);
+SP(sp_4088_1, 4088u, 1u);
+SP(sp_4096_1, 4096u, 1u);
+SP(sp_4096_2, 4096u, 2u);
+SP(sp_4104_1, 4104u, 1u);
+
+struct sp_desc { struct cmi_mempool *mp; size_t obj_sz; uint64_t obj_num; const char *name; };
+
+#define NSTATIC 16u
+
+/* Addresses of thread-locals are not constants: resolve at run time, in the running thread */
+static struct sp_desc static_pool(const unsigned k)
+{
+    switch (k % NSTATIC) {
+    case 0: return (struct sp_desc){ &sp_8_1, 8u, 1u, "8x1" };
+    case 1: return (struct sp_desc){ &sp_8_600, 8u, 600u, "8x600" };
+    case 2: return (struct sp_desc){ &sp_16_256, 16u, 256u, "16x256" };
+    case 3: return (struct sp_desc){ &sp_24_100, 24u, 100u, "24x100" };
+    case 4: return (struct sp_desc){ &sp_32_128, 32u, 128u, "32x128" };
+    case 5: return (struct sp_desc){ &sp_72_57, 72u, 57u, "72x57" };
+    case 6: return (struct sp_desc){ &sp_1368_3, 1368u, 3u, "1368x3" };
+    case 7: return (struct sp_desc){ &sp_2048_1, 2048u, 1u, "2048x1" };
+    case 8: return (struct sp_desc){ &sp_2056_1, 2056u, 1u, "2056x1" };
+    case 9: return (struct sp_desc){ &sp_4088_1, 4088u, 1u, "4088x1" };
+    case 10: return (struct sp_desc){ &sp_4096_1, 4096u, 1u, "4096x1" };
+    case 11: return (struct sp_desc){ &sp_4096_2, 4096u, 2u, "4096x2" };
+    case 12: return (struct sp_desc){ &sp_4104_1, 4104u, 1u, "4104x1" };
+    /* the library's own tag pools (src/cmb_process.c:34-41) */
+    case 13: return (struct sp_desc){ &cmi_process_awaitabletags,
+                                      sizeof(struct cmi_process_awaitable), 128u, "awaitabletags" };
+    case 14: return (struct sp_desc){ &cmi_process_holdabletags,
+                                      sizeof(struct cmi_process_holdable), 256u, "holdabletags" };
+    default: return (struct sp_desc){ &cmi_process_waitertags,
+                                      sizeof(struct cmi_process_waiter), 256u, "waitertags" };
+    }
+}
+
+unsigned mp_static_count(void) { return NSTATIC; }
+
+/* ---------------------------------------------------------------- model -- */
+
+struct lobj {
+    char *p;
+    uint64_t id;
+    uint64_t bucket;        /* address / obj_sz */
+    int live_idx;
+    struct lobj *next;      /* hash chain */
+};
+
+#define HT_BITS 16u
+#define HT_SIZE (1u << HT_BITS)
+
+struct pstate {
+    struct cmi_mempool *mp;
+    int is_static;
+    size_t obj_sz;
+    struct lobj **live;
+    int nlive, caplive;
+    struct lobj **ht;
+    uint64_t chunks_seen;   /* classification */
+    uint64_t incr_num;      /* classification */
+};
+
+static inline unsigned ht_slot(const uint64_t bucket)
+{
+    return (unsigned)((bucket * UINT64_C(11400714819323198485)) >> (64u - HT_BITS));
+}
+
+static inline uint64_t pat_word(const uint64_t id, const uint64_t j)
+{
+    uint64_t z = id * UINT64_C(0x9E3779B97F4A7C15) + j * UINT64_C(0xBF58476D1CE4E5B9) + 1u;
+    z ^= z >> 29;
+    z *= UINT64_C(0x94D049BB133111EB);
+    z ^= z >> 32;
+    return z;
+}
+
+static void fill(char *p, const uint64_t id, const size_t sz)
+{
+    uint64_t *w = (uint64_t *)(void *)p;
+    for (size_t j = 0; j < sz / 8u; j++) w[j] = pat_word(id, j);
+}
+
+/* returns -1 if intact, else the index of the first differing 8-byte word */
+static long verify(const char *p, const uint64_t id, const size_t sz)
+{
+    const uint64_t *w = (const uint64_t *)(const void *)p;
+    for (size_t j = 0; j < sz / 8u; j++) if (w[j] != pat_word(id, j)) return (long)j;
+    return -1;
+}
+
+static void model_add(struct pstate *ps, struct lobj *o)
+{
+    if (ps->nlive == ps->caplive) {
+        ps->caplive = ps->caplive ? ps->caplive * 2 : 256;
+        ps->live = realloc(ps->live, (size_t)ps->caplive * sizeof *ps->live);
+    }
+    o->live_idx = ps->nlive;
+    ps->live[ps->nlive++] = o;
+    const unsigned s = ht_slot(o->bucket);
+    o->next = ps->ht[s];
+    ps->ht[s] = o;
+}
+
+static void model_del(struct pstate *ps, struct lobj *o)
+{
+    struct lobj **pp = &ps->ht[ht_slot(o->bucket)];
+    while (*pp != o) pp = &(*pp)->next;
+    *pp = o->next;
+    ps->nlive--;
+    if (o->live_idx != ps->nlive) {
+        ps->live[o->live_idx] = ps->live[ps->nlive];
+        ps->live[o->live_idx]->live_idx = o->live_idx;
+    }
+    free(o);
+}
+
+static void model_clear(struct pstate *ps)
+{
+    for (int a = 0; a < ps->nlive; a++) free(ps->live[a]);
+    ps->nlive = 0;
+    memset(ps->ht, 0, HT_SIZE * sizeof *ps->ht);
+}
+
+/* ------------------------------------------------------------- printing -- */
+
+static const char *const op_names[] = { "a", "f", "l", "r", "c" };
+
+void mp_print_case(const struct mp_case *c, FILE *f)
+{
+    fprintf(f, "mode mempool\nthread %d\n", c->in_thread);
+    for (int k = 0; k < c->npools; k++) {
+        const struct mp_pooldef *d = &c->pools[k];
+        if (d->is_static) fprintf(f, "pool static %u\n", d->static_idx);
+        else fprintf(f, "pool dyn %zu %" PRIu64 "\n", d->obj_sz, d->obj_num);
+    }
+    for (int n = 0; n < c->nops; n++) {
+        const struct mp_op *o = &c->ops[n];
+        switch (o->op) {
+        case MP_ALLOC: fprintf(f, "a %u %u\n", o->pool, o->n); break;
+        case MP_FREE: fprintf(f, "f %u %u %u\n", o->pool, o->ref, o->n); break;
+        case MP_FREE_LAST: fprintf(f, "l %u %u\n", o->pool, o->n); break;
+        case MP_REINIT: fprintf(f, "r %u %zu %" PRIu64 "\n", o->pool, o->obj_sz, o->obj_num); break;
+        case MP_CHECK: fprintf(f, "c %u\n", o->pool); break;
+        }
+    }
+}
+
+void mp_free_case(struct mp_case *c)
+{
+    free(c->ops);
+    c->ops = NULL;
+    c->nops = 0;
+}
+
+/* -------------------------------------------------------------- running -- */
+
+#define FAIL(...) do { fprintf(trace, "F op#%d %s pool%u(%s %zu): ", n, op_names[o->op], o->pool, \
+                               ps->is_static ? "static" : "dyn", ps->obj_sz); \
+                       fprintf(trace, __VA_ARGS__); fprintf(trace, "\n"); \
+                       return CIMX_ORACLE_FAIL; } while (0)
+
+static int check_all(struct pstate *ps, FILE *trace, const int n, const struct mp_op *o)
+{
+    for (int a = 0; a < ps->nlive; a++) {
+        const struct lobj *lo = ps->live[a];
+        const long bad = verify(lo->p, lo->id, ps->obj_sz);
+        if (bad >= 0) {
+            FAIL("contents of live object id %" PRIu64 " changed at byte offset %ld while allocated",
+                 lo->id, bad * 8);
+        }
+    }
+    return 0;
+}
+
+struct run_ctx { const struct mp_case *c; FILE *trace; int result; };
+
+static int run_ops(const struct mp_case *c, FILE *trace)
+{
+    struct pstate pst[MP_MAX_POOLS];
+    memset(pst, 0, sizeof pst);
+    unsigned used_static = 0;
+    for (int k = 0; k < c->npools; k++) {
+        struct pstate *ps = &pst[k];
+        const struct mp_pooldef *d = &c->pools[k];
+        ps->ht = calloc(HT_SIZE, sizeof *ps->ht);
+        ps->is_static = d->is_static;
+        if (d->is_static) {
+            const unsigned idx = d->static_idx % NSTATIC;
+            if (used_static & (1u << idx)) {
+                fprintf(trace, "F static pool %u named twice\n", idx);
+                return CIMX_PARSE_ERROR;
+            }
+            used_static |= 1u << idx;
+            const struct sp_desc sd = static_pool(idx);
+            ps->mp = sd.mp;
+            ps->obj_sz = sd.obj_sz;
+        }
+        else {
+            ps->mp = cmi_mempool_create();
+            cmi_mempool_initialize(ps->mp, d->obj_sz, d->obj_num);
+            ps->obj_sz = d->obj_sz;
+        }
+    }
+
+    uint64_t next_id = 1;
+    uint64_t total_live = 0, total_bytes = 0;
+    unsigned skipped = 0, nalloc = 0, nfree = 0, reinit = 0, recycled = 0;
+    unsigned long opcount = 0;
+    uint64_t maxchunks = 0, maxlive = 0;
+    unsigned pools_grown = 0;
+
+    for (int n = 0; n < c->nops; n++) {
+        const struct mp_op *o = &c->ops[n];
+        if ((int)o->pool >= c->npools) { skipped++; continue; }
+        struct pstate *ps = &pst[o->pool];
+        switch (o->op) {
+        case MP_ALLOC:
+            for (unsigned r = 0; r < o->n; r++) {
+                opcount++;
+                if (total_live >= MP_MAX_LIVE || total_bytes >= MP_MAX_BYTES) { skipped++; break; }
+                const int had_free = (ps->mp->next_obj != NULL);    /* classification only */
+                char *p = cmi_mempool_alloc(ps->mp);
+                if (p == NULL) FAIL("alloc returned NULL");
+                if (((uintptr_t)p % 8u) != 0u) FAIL("alloc returned misaligned pointer (address mod 8 = %u)",
+                                                    (unsigned)((uintptr_t)p % 8u));
+                const uint64_t b = (uint64_t)(uintptr_t)p / ps->obj_sz;
+                for (uint64_t bb = (b > 0 ? b - 1 : b); bb <= b + 1; bb++) {
+                    for (const struct lobj *q = ps->ht[ht_slot(bb)]; q != NULL; q = q->next) {
+                        if (q->p == p) {
+                            FAIL("alloc handed out a pointer that is still allocated (object id %" PRIu64
+                                 ", live %d)", q->id, ps->nlive);
+                        }
+                        if ((uintptr_t)p < (uintptr_t)q->p + ps->obj_sz && (uintptr_t)q->p < (uintptr_t)p + ps->obj_sz) {
+                            FAIL("alloc returned an object overlapping live object id %" PRIu64
+                                 " (distance %ld bytes, object size %zu)", q->id,
+                                 (long)((intptr_t)p - (intptr_t)q->p), ps->obj_sz);
+                        }
+                    }
+                }
+                struct lobj *lo = malloc(sizeof *lo);
+                lo->p = p;
+                lo->id = next_id++;
+                lo->bucket = b;
+                fill(p, lo->id, ps->obj_sz);
+                model_add(ps, lo);
+                nalloc++;
+                total_live++;
+                if (had_free && nfree > 0) recycled++;
+                if (ps->mp->chunk_list_cnt != ps->chunks_seen) {
+                    if (ps->mp->chunk_list_cnt > ps->chunks_seen) {
+                        total_bytes += (ps->mp->chunk_list_cnt - ps->chunks_seen) * ps->mp->incr_sz;
+                    }
+                    ps->chunks_seen = ps->mp->chunk_list_cnt;
+                    ps->incr_num = ps->mp->incr_num;
+                    if (ps->chunks_seen == 2) pools_grown++;
+                    if (ps->chunks_seen > maxchunks) maxchunks = ps->chunks_seen;
+                }
+                if (total_live > maxlive) maxlive = total_live;
+            }
+            break;
+        case MP_FREE:
+        case MP_FREE_LAST:
+            for (unsigned r = 0; r < o->n; r++) {
+                opcount++;
+                if (ps->nlive == 0) { skipped++; break; }
+                struct lobj *lo = (o->op == MP_FREE)
+                                  ? ps->live[o->ref % (unsigned)ps->nlive]
+                                  : ps->live[ps->nlive - 1];
+                const long bad = verify(lo->p, lo->id, ps->obj_sz);
+                if (bad >= 0) {
+                    FAIL("contents of live object id %" PRIu64 " changed at byte offset %ld while allocated",
+                         lo->id, bad * 8);
+                }
+                cmi_mempool_free(ps->mp, lo->p);
+                model_del(ps, lo);
+                nfree++;
+                total_live--;
+            }
+            break;
+        case MP_REINIT: {
+            opcount++;
+            if (ps->is_static) { skipped++; break; }
+            const int r = check_all(ps, trace, n, o);
+            if (r != 0) return r;
+            /* all objects of the pool become invalid (documented) */
+            total_live -= (uint64_t)ps->nlive;
+            model_clear(ps);
+            cmi_mempool_terminate(ps->mp);
+            cmi_mempool_initialize(ps->mp, o->obj_sz, o->obj_num);
+            ps->obj_sz = o->obj_sz;
+            ps->chunks_seen = 0;
+            reinit++;
+            break;
+        }
+        case MP_CHECK: {
+            opcount++;
+            const int r = check_all(ps, trace, n, o);
+            if (r != 0) return r;
+            break;
+        }
+        }
+    }
+
+    /* end of history: every object still allocated kept its contents */
+    static const struct mp_op end_op = { MP_CHECK, 0, 0, 0, 0, 0 };
+    for (int k = 0; k < c->npools; k++) {
+        struct mp_op eo = end_op;
+        eo.pool = (unsigned)k;
+        const int n = c->nops;
+        const int r = check_all(&pst[k], trace, n, &eo);
+        if (r != 0) return r;
+    }
+
+    unsigned nstatic = 0;
+    for (int k = 0; k < c->npools; k++) nstatic += (unsigned)pst[k].is_static;
+    fprintf(trace, "N ops=%lu skipped=%u alloc=%u free=%u reinit=%u recycled=%u maxlive=%" PRIu64
+            " maxchunks=%" PRIu64 " pools=%d static=%u grown=%u thread=%d\n",
+            opcount, skipped, nalloc, nfree, reinit, recycled, maxlive, maxchunks,
+            c->npools, nstatic, pools_grown, c->in_thread);
+
+    for (int k = 0; k < c->npools; k++) {
+        struct pstate *ps = &pst[k];
+        model_clear(ps);
+        free(ps->live);
+        free(ps->ht);
+        if (!ps->is_static) cmi_mempool_destroy(ps->mp);
+    }
+    return CIMX_OK;
+}
+
+static void *thread_main(void *arg)
+{
+    struct run_ctx *rc = arg;
+    /* exactly what the experiment workers do (src/cimba.c:62,87) */
+    pthread_cleanup_push(cmi_mempool_cleanup, NULL);
+    rc->result = run_ops(rc->c, rc->trace);
+    pthread_cleanup_pop(1);
+    return NULL;
+}
+
+int mp_run(const struct mp_case *c, FILE *trace)
+{
+    if (!c->in_thread) return run_ops(c, trace);
+    struct run_ctx rc = { c, trace, CIMX_OK };
+    pthread_t th;
+    if (pthread_create(&th, NULL, thread_main, &rc) != 0) {
+        fprintf(trace, "F pthread_create failed\n");
+        return CIMX_PARSE_ERROR;
+    }
+    pthread_join(th, NULL);
+    return rc.result;
+}
+
+/* -------------------------------------------------------------- parsing -- */
+
+static int valid_geometry(const size_t sz, const uint64_t num)
+{
+    return sz >= 8u && sz <= MP_MAX_OBJ_SZ && (sz % 8u) == 0u && num >= 1u && num <= 100000u;
+}
+
+int mp_parse(char *text, struct mp_case *c)
+{
+    char *cursor = text;
+    char *line;
+    char *tok[8];
+    int cap = 0;
+    memset(c, 0, sizeof *c);
+    while ((line = cimx_next_line(&cursor)) != NULL) {
+        const int nt = cimx_split(line, tok, 8);
+        if (nt == 0) continue;
+        if (strcmp(tok[0], "thread") == 0 && nt >= 2) {
+            c->in_thread = (int)cimx_i64(tok[1]) != 0;
+            continue;
+        }
+        if (strcmp(tok[0], "pool") == 0 && nt >= 3) {
+            if (c->npools == MP_MAX_POOLS) return -1;
+            struct mp_pooldef *d = &c->pools[c->npools++];
+            if (strcmp(tok[1], "static") == 0) {
+                d->is_static = 1;
+                d->static_idx = (unsigned)cimx_u64(tok[2]);
+                if (d->static_idx >= NSTATIC) return -1;
+            }
+            else if (strcmp(tok[1], "dyn") == 0 && nt >= 4) {
+                d->is_static = 0;
+                d->obj_sz = (size_t)cimx_u64(tok[2]);
+                d->obj_num = cimx_u64(tok[3]);
+                if (!valid_geometry(d->obj_sz, d->obj_num)) return -1;
+            }
+            else return -1;
+            continue;
+        }
+        int op = -1;
+        for (int j = 0; j < (int)(sizeof op_names / sizeof op_names[0]); j++) {
+            if (strcmp(tok[0], op_names[j]) == 0) op = j;
+        }
+        if (op < 0 || nt < 2) return -1;
+        if (c->nops == cap) {
+            cap = cap ? cap * 2 : 64;
+            c->ops = realloc(c->ops, (size_t)cap * sizeof *c->ops);
+        }
+        struct mp_op *o = &c->ops[c->nops++];
+        memset(o, 0, sizeof *o);
+        o->op = (enum mp_opcode)op;
+        o->pool = (unsigned)cimx_u64(tok[1]);
+        switch (o->op) {
+        case MP_ALLOC: case MP_FREE_LAST:
+            if (nt < 3) return -1;
+            o->n = (unsigned)cimx_u64(tok[2]);
+            break;
+        case MP_FREE:
+            if (nt < 4) return -1;
+            o->ref = (unsigned)cimx_u64(tok[2]);
+            o->n = (unsigned)cimx_u64(tok[3]);
+            break;
+        case MP_REINIT:
+            if (nt < 4) return -1;
+            o->obj_sz = (size_t)cimx_u64(tok[2]);
+            o->obj_num = cimx_u64(tok[3]);
+            if (!valid_geometry(o->obj_sz, o->obj_num)) return -1;
+            break;
+        case MP_CHECK:
+            break;
+        }
+    }
+    if (c->npools == 0) return -1;
+    return 0;
+}
+
+int mode_mempool(char *text, FILE *trace)
+{
+    struct mp_case c;
+    if (mp_parse(text, &c) != 0) {
+        fprintf(trace, "F parse error\n");
+        return CIMX_PARSE_ERROR;
+    }
+    const int r = mp_run(&c, trace);
+    mp_free_case(&c);
+    return r;
+}
